@@ -59,6 +59,13 @@ class Universe:
                 "x!=7": x != 7,
                 "x!=4": x != 4,
                 "y==2": y == 2,
+                # signed comparisons whose bound sits exactly on / next to INT_MIN and INT_MAX of the width
+                "x<=s-4": claripy.SLE(x, 4),
+                "x<s-3": claripy.SLT(x, 5),
+                "-4>=sx": claripy.SGE(claripy.BVV(4, W), x),
+                "x>=s3": claripy.SGE(x, 3),
+                "x>s2": claripy.SGT(x, 2),
+                "x<=s-3": claripy.SLE(x, 5),
             }
             self.E = {"x": x, "y": y, "x+y": x + y, "x-y": x - y}
             self.X = {"none": (), "x==6": (x == 6,), "y<u2": (claripy.ULT(y, 2),), "y>u6": (claripy.UGT(y, 6),)}
